@@ -44,11 +44,83 @@ func (l recLayout) String() string {
 }
 
 func c23(r *core.Run) {
-	r.Expl = "C23 (local packet buffer): decides the packed record layout of LocalBuffer.Add and LocalBuffer.Next on every control-flow path: all fields written lie inside the cursor stride and are pairwise disjoint; writer and reader agree per role (parameter i of Add <-> result i of Next) on offset and width, on the stride and on the IP-version flag; a refused Add performs no store; refusal only under the size-limit test; the space test covers the full record. Does not decide FIFO behaviour over sequences of operations."
+	r.Expl = "C23 (local packet buffer): decides the packed record layout of LocalBuffer.Add and LocalBuffer.Next on every control-flow path: all fields written lie inside the cursor stride and are pairwise disjoint; writer and reader agree per role (parameter i of Add <-> result i of Next) on offset and width, on the stride and on the IP-version flag; a refused Add performs no store; refusal only under the size-limit test; the space test covers the full record; the cursors only advance by a positive constant record size (write cursor in Add, read cursor in Next) and are reset only together in Reset (a cursor rewound alone redelivers or loses records). NOT decided: FIFO behaviour over sequences of operations as executed."
 	r.Floor = 14
-	r.Rules = append(r.Rules, "packed-layout: per-path extraction of base+const accesses (index, slice, unsafe cast, copy) and cursor stride; writer/reader table comparison")
+	r.Rules = append(r.Rules, "packed-layout: per-path extraction of base+const accesses (index, slice, unsafe cast, copy) and cursor stride; writer/reader table comparison", "cursor-discipline")
 	p := r.Prog("cgo")
 	ruleLocalBufferLayout(r, p)
+	ruleLocalBufferCursors(r, p)
+}
+
+// ruleLocalBufferCursors: the two cursors only advance (by a positive constant record size, write cursor in Add, read
+// cursor in Next, on a path that produced / consumed a record) and are only ever reset together. A read cursor that is
+// rewound alone redelivers consumed records; a write cursor rewound alone loses undelivered ones.
+func ruleLocalBufferCursors(r *core.Run, p *core.Prog) {
+	const rule = "cursor-discipline"
+	fW := p.FieldObj(pkgCapture, "LocalBuffer", "writeBufPos")
+	fR := p.FieldObj(pkgCapture, "LocalBuffer", "readBufPos")
+	if fW == nil || fR == nil {
+		r.Missing(rule, "LocalBuffer.writeBufPos/readBufPos")
+		return
+	}
+	n := 0
+	for _, f := range p.Funcs(pkgCapture) {
+		info := f.Info()
+		resets := map[types.Object]token.Pos{}
+		core.Walk(f.Decl.Body, true, func(x ast.Node) bool {
+			var lhs []ast.Expr
+			var rhs []ast.Expr
+			tok := token.ILLEGAL
+			switch st := x.(type) {
+			case *ast.AssignStmt:
+				lhs, rhs, tok = st.Lhs, st.Rhs, st.Tok
+			case *ast.IncDecStmt:
+				lhs, tok = []ast.Expr{st.X}, st.Tok
+			default:
+				return true
+			}
+			for i, l := range lhs {
+				fv := core.SelField(info, l)
+				if fv != fW && fv != fR {
+					continue
+				}
+				n++
+				key := fmt.Sprintf("%s:%s:%s", f.Name, fv.Name(), tok)
+				switch {
+				case tok == token.ADD_ASSIGN && i < len(rhs):
+					v, isConst := core.ConstInt(info, rhs[i])
+					owner := map[types.Object]string{fW: "LocalBuffer.Add", fR: "LocalBuffer.Next"}[fv]
+					r.Check(rule, key, p.Rel(x.Pos()), isConst && v > 0 && f.Name == owner,
+						fmt.Sprintf("%s may only be advanced by a positive constant record size, and only in %s (here: %s in %s)", fv.Name(), owner, core.Str0(x.(ast.Stmt)), f.Name))
+				case tok == token.ASSIGN && i < len(rhs):
+					if v, isConst := core.ConstInt(info, rhs[i]); isConst && v == 0 {
+						resets[fv] = x.Pos()
+					} else {
+						r.Check(rule, key, p.Rel(x.Pos()), false, fmt.Sprintf("%s is assigned %s: a cursor may only advance by a record size or be reset to 0", fv.Name(), core.Str(rhs[i])))
+					}
+				default:
+					r.Check(rule, key, p.Rel(x.Pos()), false, fmt.Sprintf("unexpected update of cursor %s: %s", fv.Name(), core.Str0(x.(ast.Stmt))))
+				}
+			}
+			return true
+		})
+		if len(resets) > 0 {
+			_, okW := resets[fW]
+			_, okR := resets[fR]
+			var pos token.Pos
+			for _, ps := range resets {
+				pos = ps
+			}
+			why := "the read cursor is rewound without the write cursor: records already delivered are delivered again"
+			if okW && !okR {
+				why = "the write cursor is rewound without the read cursor: the read cursor points past the data, new records are never delivered"
+			}
+			r.Check(rule, f.Name+":cursors-reset-together", p.Rel(pos), okW && okR && (f.Name == "LocalBuffer.Reset" || f.Name == "LocalBuffer.reset"), orStr(map[bool]string{true: "cursors may be reset only in LocalBuffer.Reset", false: why}[okW && okR], ""))
+		}
+	}
+	if n < 4 {
+		r.Undecided(rule, "LocalBuffer:cursor-updates", "-", fmt.Sprintf("only %d cursor updates found", n))
+	}
 }
 
 // ruleLocalBufferLayout: packed record layout of LocalBuffer.Add / Next (shared by C21 and C23).
